@@ -408,4 +408,481 @@ theorem episode_delivery (pw : α → α → α) (lg : α → α) (cfg : EnvCfg 
   exact ⟨hle, hinv.1, hinv.2.1⟩
 
 end
+
+/-! ## Part 3 — observers see timestamps in non-decreasing order
+
+Every entry of the observer log — market events and the environment's own reset / step / done / new-date
+notifications — carries a stamp that is not earlier than any stamp before it, over `reset` and any sequence
+of `step` calls (successful, refused or failing). -/
+
+/-- order on stamps: "no event yet" (`none`) precedes everything -/
+def stampLE : Option Time → Option Time → Prop
+  | none, _ => True
+  | some _, none => False
+  | some a, some b => a ≤ b
+
+theorem stampLE_refl (a : Option Time) : stampLE a a := by
+  cases a with
+  | none => trivial
+  | some x => exact le_refl x
+
+theorem stampLE_trans {a b c : Option Time} (h1 : stampLE a b) (h2 : stampLE b c) : stampLE a c := by
+  cases a with
+  | none => trivial
+  | some x =>
+    cases b with
+    | none => exact absurd h1 (by simp [stampLE])
+    | some y =>
+      cases c with
+      | none => exact absurd h2 (by simp [stampLE])
+      | some z => exact le_trans (show x ≤ y from h1) (show y ≤ z from h2)
+
+def StampsSorted (l : List LogEntry) : Prop := l.Pairwise (fun a b => stampLE a.stamp b.stamp)
+
+section
+variable {α : Type} [Add α] [Sub α] [Mul α] [Div α] [Neg α] [LT α] [LE α]
+  [DecidableLT α] [DecidableLE α] [DecidableEq α] [OfNat α 0] [OfNat α 1] [OfNat α 2]
+  [IntCast α] [HasTrunc α]
+
+/-- the log is in stamp order, nothing in it is later than the clock, and the last event seen is the clock -/
+structure Mono (s : EnvState α) : Prop where
+  sorted : StampsSorted s.log
+  bound : ∀ e ∈ s.log, stampLE e.stamp s.now
+  last : ∀ lt, s.lastEvent = some lt → lt = s.now
+
+/-- what a notification appends: possibly a new-date entry stamped with the previous event's time (which is
+    the clock), then the entry itself -/
+theorem notify_log_mono (s : EnvState α) (k : LogKind) (t : Option Time) (m : Option (MEvent α))
+    (h : ∀ lt, s.lastEvent = some lt → lt = s.now) :
+    ∃ X : List LogEntry, (notify s k t m).log = s.log ++ X ++ [⟨k, t, t⟩] ∧ ∀ e ∈ X, e.stamp = s.now := by
+  rw [notify_log]
+  refine ⟨_, rfl, ?_⟩
+  intro e he
+  split_ifs at he with hnd
+  · simp only [List.mem_singleton] at he
+    subst he
+    simp only
+    cases hle : s.lastEvent with
+    | none => unfold isNewDate at hnd; rw [hle] at hnd; simp at hnd
+    | some x => exact h x hle
+  · cases he
+
+/-- a notification stamped no earlier than the clock keeps the log in order — including the new-date
+    notification it may trigger, which carries the previous event's time -/
+theorem notify_mono (s : EnvState α) (k : LogKind) (t : Option Time) (m : Option (MEvent α))
+    (h : Mono s) (ht : stampLE s.now t) : Mono (notify s k t m) := by
+  obtain ⟨_, _, _, _, _, _, fnow, _, flast⟩ := notify_frame s k t m
+  obtain ⟨X, hX, hXs⟩ := notify_log_mono s k t m h.last
+  refine ⟨?_, ?_, ?_⟩
+  · unfold StampsSorted
+    rw [hX, List.pairwise_append]
+    refine ⟨?_, List.pairwise_singleton _ _, ?_⟩
+    · rw [List.pairwise_append]
+      refine ⟨h.sorted, ?_, ?_⟩
+      · rw [List.pairwise_iff_forall_sublist]
+        intro a b hab
+        have ha := hXs a (hab.subset (by simp))
+        have hb := hXs b (hab.subset (by simp))
+        rw [ha, hb]; exact stampLE_refl _
+      · intro a ha b hb
+        rw [hXs b hb]; exact h.bound a ha
+    · intro a ha b hb
+      simp only [List.mem_singleton] at hb
+      subst hb
+      simp only
+      rcases List.mem_append.mp ha with ha | ha
+      · exact stampLE_trans (h.bound a ha) ht
+      · rw [hXs a ha]; exact ht
+  · intro e he
+    rw [fnow]
+    rw [hX] at he
+    rcases List.mem_append.mp he with he | he
+    · rcases List.mem_append.mp he with he | he
+      · exact stampLE_trans (h.bound e he) ht
+      · rw [hXs e he]; exact ht
+    · simp only [List.mem_singleton] at he
+      subst he
+      exact stampLE_refl _
+  · intro lt hlt'
+    rw [flast] at hlt'
+    rw [fnow]
+    cases hlt'; rfl
+
+/-- delivering a batch that is in time order and not earlier than the clock keeps the log in order; the clock
+    ends no later than any bound on the batch and the old clock -/
+theorem foldl_notifyEvent_mono (l : List (TEvent (Payload α))) (s : EnvState α) (h : Mono s)
+    (hs : l.Pairwise (fun a b => a.time ≤ b.time)) (hb : ∀ e ∈ l, stampLE s.now (some e.time)) :
+    Mono (l.foldl notifyEvent s) ∧
+    (∀ t, (∀ e ∈ l, e.time ≤ t) → stampLE s.now (some t) → stampLE (l.foldl notifyEvent s).now (some t)) ∧
+    (∀ t, (∀ e ∈ l, t ≤ e.time) → stampLE (some t) s.now ∨ s.now = none → l ≠ [] →
+      stampLE (some t) (l.foldl notifyEvent s).now) := by
+  induction l generalizing s with
+  | nil => exact ⟨h, fun t _ ht => ht, fun t _ _ hne => absurd rfl hne⟩
+  | cons e es ih =>
+      simp only [List.foldl_cons]
+      obtain ⟨m, hm⟩ := notifyEvent_eq s e
+      have hp := List.pairwise_cons.mp hs
+      have h1 : Mono (notifyEvent s e) := by
+        rw [hm]; exact notify_mono s _ _ m h (hb e List.mem_cons_self)
+      have hnow : (notifyEvent s e).now = some e.time := by
+        rw [hm]; exact (notify_frame s _ _ m).2.2.2.2.2.2.1
+      obtain ⟨i1, i2, i3⟩ := ih (notifyEvent s e) h1 hp.2
+        (by intro e' he'; rw [hnow]; exact hp.1 e' he')
+      refine ⟨i1, ?_, ?_⟩
+      · intro t hall _
+        apply i2 t (fun e' he' => hall e' (List.mem_cons_of_mem _ he'))
+        rw [hnow]; exact hall e List.mem_cons_self
+      · intro t hall _ _
+        by_cases hes : es = []
+        · subst hes
+          simp only [List.foldl_nil]
+          rw [hnow]; exact hall e List.mem_cons_self
+        · apply i3 t (fun e' he' => hall e' (List.mem_cons_of_mem _ he')) _ hes
+          left; rw [hnow]; exact hall e List.mem_cons_self
+
+/-! ### batches are in time order, bounded by their timestep, and later than every earlier timestep -/
+section
+variable {ρ : Type}
+
+theorem batch_sorted (c : TxCfg ρ) (g : Time) :
+    (c.latent g ++ c.nonlatent g).Pairwise (fun a b => a.time ≤ b.time) := by
+  rw [bucket_split]
+  exact (sorted_pairwise c).sublist List.filter_sublist
+
+theorem batch_le (c : TxCfg ρ) (g : Time) (e : TEvent ρ) (h : e ∈ c.latent g ++ c.nonlatent g) : e.time ≤ g :=
+  (delivered_at_first_timestep c g e h).2.1
+
+theorem batch_gt (c : TxCfg ρ) (g1 g2 : Time) (hg1 : g1 ∈ c.grid) (hlt : g1 < g2) (e : TEvent ρ)
+    (h : e ∈ c.latent g2 ++ c.nonlatent g2) : g1 < e.time := by
+  by_contra hn
+  have hle : e.time ≤ g1 := not_lt.mp hn
+  have := (delivered_at_first_timestep c g2 e h).2.2 g1 hg1 hle
+  exact absurd (lt_of_lt_of_le hlt this) (lt_irrefl _)
+
+/-- the concatenation of the batches of increasing grid points is in time order -/
+theorem flatMap_batches_sorted (c : TxCfg ρ) (L : List Time) (hL : L.Pairwise (· < ·)) (hin : ∀ g ∈ L, g ∈ c.grid) :
+    (L.flatMap fun g => c.latent g ++ c.nonlatent g).Pairwise (fun a b => a.time ≤ b.time) := by
+  induction L with
+  | nil => exact List.Pairwise.nil
+  | cons g rest ih =>
+      have hp := List.pairwise_cons.mp hL
+      simp only [List.flatMap_cons]
+      rw [List.pairwise_append]
+      refine ⟨batch_sorted c g, ih hp.2 (fun g' hg' => hin g' (List.mem_cons_of_mem _ hg')), ?_⟩
+      intro a ha b hb
+      obtain ⟨g', hg', hb'⟩ := List.mem_flatMap.mp hb
+      have h1 := batch_le c g a ha
+      have h2 := batch_gt c g g' (hin g List.mem_cons_self) (hp.1 g' hg') b hb'
+      exact le_of_lt (lt_of_le_of_lt h1 h2)
+
+/-- the batch handed out for the first timestep of an episode (history replay, warm-up horizon, or the
+    step's own batches under markov reset) is in time order and not later than that timestep -/
+theorem firstBatch_sorted (c : TxCfg ρ) (cur : Time) :
+    ((c.firstBatch cur).1 ++ (c.firstBatch cur).2).Pairwise (fun a b => a.time ≤ b.time) ∧
+    ∀ e ∈ (c.firstBatch cur).1 ++ (c.firstBatch cur).2, e.time ≤ cur := by
+  unfold TxCfg.firstBatch
+  split_ifs
+  · exact ⟨batch_sorted c cur, fun e he => batch_le c cur e he⟩
+  · simp only [List.nil_append]
+    refine ⟨flatMap_batches_sorted c _ ((mkGrid_strict c.timesteps).sublist List.filter_sublist)
+      (fun g hg => (List.mem_filter.mp hg).1), ?_⟩
+    intro e he
+    obtain ⟨g, hg, heg⟩ := List.mem_flatMap.mp he
+    have hgc : g ≤ cur := by
+      have := (List.mem_filter.mp hg).2
+      simp only [Bool.and_eq_true, decide_eq_true_eq] at this
+      exact this.2
+    exact le_trans (batch_le c g e heg) hgc
+
+end
+
+/-- the pre-fetched batches are in time order, not earlier than the clock, and belong to the timestep the
+    cursor has loaded; the episode's timesteps are increasing grid points -/
+structure PendOK (cfg : EnvCfg α) (s : EnvState α) : Prop where
+  sorted : (s.pendLat ++ s.pendNon).Pairwise (fun a b => a.time ≤ b.time)
+  later : ∀ e ∈ s.pendLat ++ s.pendNon, stampLE s.now (some e.time)
+  steps : s.steps.Pairwise (· < ·)
+  grid : ∀ g ∈ s.steps, g ∈ cfg.tx.grid
+  cursor : 1 ≤ s.cursor
+  loaded : ∃ g, s.steps[s.cursor - 1]? = some g ∧ stampLE s.now (some g) ∧ ∀ e ∈ s.pendLat ++ s.pendNon, e.time ≤ g
+
+theorem processLatent_mono (cfg : EnvCfg α) (s : EnvState α) (h : Mono s) (hp : PendOK cfg s) :
+    Mono (processLatent s) ∧ PendOK cfg (processLatent s) := by
+  have hsl : s.pendLat.Pairwise (fun a b => a.time ≤ b.time) := (List.pairwise_append.mp hp.sorted).1
+  obtain ⟨m1, m2, _⟩ := foldl_notifyEvent_mono s.pendLat s h hsl
+    (fun e he => hp.later e (List.mem_append_left _ he))
+  obtain ⟨_, _, i3, i4, _, i6, _, _⟩ := foldl_notifyEvent s.pendLat s
+  obtain ⟨g, hg1, hg2, hg3⟩ := hp.loaded
+  have hnow : stampLE (s.pendLat.foldl notifyEvent s).now (some g) :=
+    m2 g (fun e he => hg3 e (List.mem_append_left _ he)) hg2
+  unfold processLatent
+  refine ⟨⟨m1.sorted, m1.bound, m1.last⟩, ?_⟩
+  refine ⟨?_, ?_, by simpa [i3] using hp.steps, by simpa [i3] using hp.grid, by simpa [i4] using hp.cursor, ?_⟩
+  · simp only [List.nil_append, i6]
+    exact (List.pairwise_append.mp hp.sorted).2.1
+  · intro e he
+    simp only [List.nil_append, i6] at he
+    simp only
+    -- every non-latent event comes after every latent one; the clock is the last latent event (or unchanged)
+    by_cases hl : s.pendLat = []
+    · rw [hl]; simp only [List.foldl_nil]
+      exact hp.later e (List.mem_append_right _ he)
+    · cases hn : (s.pendLat.foldl notifyEvent s).now with
+      | none => trivial
+      | some t =>
+          obtain ⟨last, hlast⟩ : ∃ x, s.pendLat.getLast? = some x := by
+            cases hh : s.pendLat.getLast? with
+            | none => exact absurd (List.getLast?_eq_none_iff.mp hh) hl
+            | some x => exact ⟨x, rfl⟩
+          have hbound := m2 last.time (by
+            intro e' he'
+            have hmem : last ∈ s.pendLat := List.mem_of_getLast? hlast
+            -- every element of a sorted list is ≤ its last element
+            rcases List.getLast?_eq_some_iff.mp hlast with ⟨pre, hpre⟩
+            rw [hpre] at he' hsl
+            rcases List.mem_append.mp he' with hin | hin
+            · exact (List.pairwise_append.mp hsl).2.2 e' hin last (List.mem_singleton.mpr rfl)
+            · simp only [List.mem_singleton] at hin; rw [hin])
+            (hp.later last (List.mem_append_left _ (List.mem_of_getLast? hlast)))
+          rw [hn] at hbound
+          have : last.time ≤ e.time :=
+            (List.pairwise_append.mp hp.sorted).2.2 last (List.mem_of_getLast? hlast) e he
+          exact le_trans (show t ≤ last.time from hbound) this
+  · refine ⟨g, by simpa [i3, i4] using hg1, hnow, ?_⟩
+    intro e he
+    simp only [List.nil_append, i6] at he
+    exact hg3 e (List.mem_append_right _ he)
+
+theorem processNonlatent_mono (cfg : EnvCfg α) (s : EnvState α) (h : Mono s) (hp : PendOK cfg s) :
+    Mono (processNonlatent cfg s) ∧ ((processNonlatent cfg s).done = false → PendOK cfg (processNonlatent cfg s)) := by
+  have hsn : s.pendNon.Pairwise (fun a b => a.time ≤ b.time) := (List.pairwise_append.mp hp.sorted).2.1
+  obtain ⟨m1, m2, _⟩ := foldl_notifyEvent_mono s.pendNon s h hsn
+    (fun e he => hp.later e (List.mem_append_right _ he))
+  obtain ⟨_, _, i3, i4, _, _, i7, _⟩ := foldl_notifyEvent s.pendNon s
+  obtain ⟨g, hg1, hg2, hg3⟩ := hp.loaded
+  have hnow : stampLE (s.pendNon.foldl notifyEvent s).now (some g) :=
+    m2 g (fun e he => hg3 e (List.mem_append_right _ he)) hg2
+  have hc0 : (s.pendNon.foldl notifyEvent s).cursor ≠ 0 := by rw [i4]; have := hp.cursor; omega
+  unfold processNonlatent
+  simp only
+  cases hcur : (List.foldl notifyEvent s s.pendNon).steps[(List.foldl notifyEvent s s.pendNon).cursor]? with
+  | none =>
+      simp only
+      exact ⟨⟨m1.sorted, m1.bound, m1.last⟩, fun hd => by cases hd⟩
+  | some g2 =>
+      simp only [hc0, if_false, TxCfg.batch]
+      refine ⟨⟨m1.sorted, m1.bound, m1.last⟩, fun _ => ?_⟩
+      have hcur' : s.steps[s.cursor]? = some g2 := by rw [← i3, ← i4]; exact hcur
+      have hg2in : g2 ∈ s.steps := List.mem_of_getElem? hcur'
+      have hgin : g ∈ s.steps := List.mem_of_getElem? hg1
+      -- consecutive timesteps of the episode are increasing
+      have hlt : g < g2 := by
+        have hc := hp.cursor
+        have e1 : s.steps[s.cursor - 1]? = some g := hg1
+        obtain ⟨h1, h1'⟩ := List.getElem?_eq_some_iff.mp e1
+        obtain ⟨h2, h2'⟩ := List.getElem?_eq_some_iff.mp hcur'
+        have := List.pairwise_iff_getElem.mp hp.steps (s.cursor - 1) s.cursor h1 h2 (by omega)
+        rw [h1', h2'] at this; exact this
+      refine ⟨?_, ?_, by simpa [i3] using hp.steps, by simpa [i3] using hp.grid, by simp, ?_⟩
+      · exact batch_sorted cfg.tx g2
+      · intro e he
+        simp only at he ⊢
+        have hgt := batch_gt cfg.tx g g2 (hp.grid g hgin) hlt e he
+        cases hn : (List.foldl notifyEvent s s.pendNon).now with
+        | none => trivial
+        | some t =>
+            rw [hn] at hnow
+            exact le_of_lt (lt_of_le_of_lt (show t ≤ g from hnow) hgt)
+      · refine ⟨g2, by simpa [i3, i4] using hcur', ?_, fun e he => batch_le cfg.tx g2 e he⟩
+        simp only
+        cases hn : (List.foldl notifyEvent s s.pendNon).now with
+        | none => trivial
+        | some t =>
+            rw [hn] at hnow
+            exact le_of_lt (lt_of_le_of_lt (show t ≤ g from hnow) hlt)
+
+theorem Mono.of_same {s s' : EnvState α} (h : Mono s) (h1 : s'.log = s.log) (h2 : s'.now = s.now)
+    (h3 : s'.lastEvent = s.lastEvent) : Mono s' :=
+  ⟨by unfold StampsSorted; rw [h1]; exact h.sorted, by rw [h1, h2]; exact h.bound, by rw [h2, h3]; exact h.last⟩
+
+theorem PendOK.of_same {cfg : EnvCfg α} {s s' : EnvState α} (hp : PendOK cfg s) (h1 : s'.pendLat = s.pendLat)
+    (h2 : s'.pendNon = s.pendNon) (h3 : s'.steps = s.steps) (h4 : s'.cursor = s.cursor) (h5 : s'.now = s.now) :
+    PendOK cfg s' :=
+  ⟨by rw [h1, h2]; exact hp.sorted, by rw [h1, h2, h5]; exact hp.later, by rw [h3]; exact hp.steps,
+   by rw [h3]; exact hp.grid, by rw [h4]; exact hp.cursor, by rw [h1, h2, h3, h4, h5]; exact hp.loaded⟩
+
+/-- the closing notifications of `reset` / `step` (stamped with the clock) keep everything in order -/
+theorem closing_mono (cfg : EnvCfg α) (s : EnvState α) (k : LogKind) (h : Mono s) :
+    Mono (let s5 := notify s k s.now none; if s5.done then notify s5 .done s5.now none else s5) ∧
+    (let s5 := notify s k s.now none; if s5.done then notify s5 .done s5.now none else s5).done = s.done ∧
+    (PendOK cfg s → PendOK cfg (let s5 := notify s k s.now none; if s5.done then notify s5 .done s5.now none else s5)) := by
+  have m5 := notify_mono s k s.now none h (stampLE_refl _)
+  obtain ⟨f1, f2, f3, f4, f5, _, f7, _, _⟩ := notify_frame s k s.now none
+  simp only
+  split_ifs with hd
+  · have m6 := notify_mono (notify s k s.now none) .done (notify s k s.now none).now none m5 (stampLE_refl _)
+    obtain ⟨g1, g2, g3, g4, g5, _, g7, _, _⟩ :=
+      notify_frame (notify s k s.now none) .done (notify s k s.now none).now none
+    exact ⟨m6, by rw [g5, f5], fun hp => hp.of_same (g3.trans f3) (g4.trans f4) (g1.trans f1) (g2.trans f2)
+      (g7.trans f7)⟩
+  · exact ⟨m5, f5, fun hp => hp.of_same f3 f4 f1 f2 f7⟩
+
+theorem stepExec_same (pw : α → α → α) (cfg : EnvCfg α) (s1 : EnvState α) (act : Action α) :
+    ∃ b d, (stepExec pw cfg s1 act).1 = { s1 with broker := b, done := d } := by
+  unfold stepExec
+  split
+  · exact ⟨s1.broker, s1.done, rfl⟩
+  · split <;> exact ⟨_, _, rfl⟩
+
+theorem processNonlatent_done_of_done (cfg : EnvCfg α) (s : EnvState α) (h : s.done = true) :
+    (processNonlatent cfg s).done = true := by
+  obtain ⟨_, _, _, _, _, _, i7, _⟩ := foldl_notifyEvent s.pendNon s
+  unfold processNonlatent
+  simp only
+  cases (List.foldl notifyEvent s s.pendNon).steps[(List.foldl notifyEvent s s.pendNon).cursor]? with
+  | none => rfl
+  | some cur => simp only; rw [i7]; exact h
+
+/-- **`step` keeps the observer log in stamp order**, whatever it returns (a result, a refusal, an error) -/
+theorem envStep_mono (pw : α → α → α) (lg : α → α) (cfg : EnvCfg α) (s : EnvState α) (a : Action α)
+    (h : Mono s) (hp : s.done = false → PendOK cfg s) :
+    Mono (envStep pw lg cfg s a).1 ∧
+    ((envStep pw lg cfg s a).1.done = false → PendOK cfg (envStep pw lg cfg s a).1) := by
+  unfold envStep
+  split_ifs with hd
+  · exact ⟨h, hp⟩
+  · have hd' : s.done = false := by simpa using hd
+    have P := hp hd'
+    -- stepPre
+    have h0 : Mono ({ s with contractClock := s.now, queue := (a :: s.queue).dropLast } : EnvState α) :=
+      h.of_same rfl rfl rfl
+    have P0 : PendOK cfg ({ s with contractClock := s.now, queue := (a :: s.queue).dropLast } : EnvState α) :=
+      P.of_same rfl rfl rfl rfl rfl
+    obtain ⟨h1, P1⟩ := processLatent_mono cfg _ h0 P0
+    have e1 : (stepPre s a).1 =
+        processLatent ({ s with contractClock := s.now, queue := (a :: s.queue).dropLast } : EnvState α) := rfl
+    rw [← e1] at h1 P1
+    -- stepExec
+    obtain ⟨b, d, hsame⟩ := stepExec_same pw cfg (stepPre s a).1 (stepPre s a).2
+    cases hres : stepExec pw cfg (stepPre s a).1 (stepPre s a).2 with
+    | mk s2 res =>
+      rw [hres] at hsame
+      simp only at hsame
+      have h2 : Mono s2 := by rw [hsame]; exact h1.of_same rfl rfl rfl
+      have P2 : PendOK cfg s2 := by rw [hsame]; exact P1.of_same rfl rfl rfl rfl rfl
+      cases res with
+      | error e => exact ⟨h2, fun _ => P2⟩
+      | ok tr =>
+          simp only
+          obtain ⟨h3, P3⟩ := processNonlatent_mono cfg s2 h2 P2
+          unfold stepFinish
+          simp only
+          cases hrw : rewardOf lg cfg (processNonlatent cfg s2).broker with
+          | mk b4 res2 =>
+            have h4 : Mono ({ processNonlatent cfg s2 with broker := b4 } : EnvState α) := h3.of_same rfl rfl rfl
+            cases res2 with
+            | error e =>
+                simp only
+                exact ⟨h4, fun hdn => (P3 hdn).of_same rfl rfl rfl rfl rfl⟩
+            | ok r =>
+                simp only
+                obtain ⟨c1, c2, c3⟩ := closing_mono cfg ({ processNonlatent cfg s2 with broker := b4 } : EnvState α) .step h4
+                refine ⟨c1, fun hdn => c3 ((P3 ?_).of_same rfl rfl rfl rfl rfl)⟩
+                have := c2
+                simp only at this hdn
+                rw [this] at hdn; exact hdn
+
+theorem episodeSteps_sublist_grid {ρ : Type} (c : TxCfg ρ) (lo hi : Time) (len : Option Nat) (start : Nat) :
+    (c.episodeSteps lo hi len start).Sublist c.grid := by
+  have h1 : (c.episodeSteps lo hi len start).Sublist (c.foldSteps lo hi) := by
+    unfold TxCfg.episodeSteps
+    cases len with
+    | none => exact List.Sublist.refl _
+    | some L => exact (List.take_sublist _ _).trans (List.drop_sublist _ _)
+  have h2 : (c.foldSteps lo hi).Sublist c.eventSteps := by unfold TxCfg.foldSteps; exact List.filter_sublist
+  have h3 : c.eventSteps.Sublist c.grid := by unfold TxCfg.eventSteps; exact List.filter_sublist
+  exact h1.trans (h2.trans h3)
+
+/-- the tail of `reset` after the first fetch -/
+def resetTail (cfg : EnvCfg α) (s1 : EnvState α) : EnvState α :=
+  let s2 := processNonlatent cfg (processLatent s1)
+  let s3 := notify s2 .reset s2.now none
+  if s3.done then notify s3 .done s3.now none else s3
+
+theorem resetTail_mono (cfg : EnvCfg α) (s1 : EnvState α) (hm1 : Mono s1) (hP1 : PendOK cfg s1) :
+    Mono (resetTail cfg s1) ∧ ((resetTail cfg s1).done = false → PendOK cfg (resetTail cfg s1)) := by
+  obtain ⟨hm2, hP2⟩ := processLatent_mono cfg s1 hm1 hP1
+  obtain ⟨hm3, hP3⟩ := processNonlatent_mono cfg (processLatent s1) hm2 hP2
+  obtain ⟨c1, c2, c3⟩ := closing_mono cfg (processNonlatent cfg (processLatent s1)) .reset hm3
+  refine ⟨c1, fun hdf => c3 (hP3 ?_)⟩
+  have : (resetTail cfg s1).done = (processNonlatent cfg (processLatent s1)).done := c2
+  rw [this] at hdf; exact hdf
+
+theorem resetTail_mono_empty (cfg : EnvCfg α) (s1 : EnvState α) (hm1 : Mono s1) (hpl : s1.pendLat = [])
+    (hpn : s1.pendNon = []) (hdn : s1.done = true) :
+    Mono (resetTail cfg s1) ∧ (resetTail cfg s1).done = true := by
+  have hm2 : Mono (processLatent s1) := by
+    unfold processLatent; rw [hpl]; exact hm1.of_same rfl rfl rfl
+  obtain ⟨_, _, _, _, _, l6, l7, _⟩ := processLatent_spec s1
+  have hm3 : Mono (processNonlatent cfg (processLatent s1)) := by
+    obtain ⟨m1, _, _⟩ := foldl_notifyEvent_mono (processLatent s1).pendNon (processLatent s1) hm2
+      (by rw [l6, hpn]; exact List.Pairwise.nil) (by rw [l6, hpn]; intro e he; cases he)
+    unfold processNonlatent
+    simp only
+    split <;> exact ⟨m1.sorted, m1.bound, m1.last⟩
+  have hd3 : (processNonlatent cfg (processLatent s1)).done = true :=
+    processNonlatent_done_of_done cfg _ (by rw [l7]; exact hdn)
+  obtain ⟨c1, c2, _⟩ := closing_mono cfg (processNonlatent cfg (processLatent s1)) .reset hm3
+  have : (resetTail cfg s1).done = (processNonlatent cfg (processLatent s1)).done := c2
+  exact ⟨c1, by rw [this]; exact hd3⟩
+
+/-- **`reset` leaves the observer log in stamp order** and the pre-fetched batches ready -/
+theorem reset_mono (cfg : EnvCfg α) (lo hi : Time) (start : Nat) (clk : Option Time) :
+    Mono (envReset cfg lo hi start clk) ∧
+    ((envReset cfg lo hi start clk).done = false → PendOK cfg (envReset cfg lo hi start clk)) := by
+  have hsub := episodeSteps_sublist_grid cfg.tx lo hi cfg.episodeLen start
+  unfold envReset
+  simp only
+  cases h0 : (cfg.tx.episodeSteps lo hi cfg.episodeLen start)[0]? with
+  | none =>
+      simp only
+      have key : ∀ s1 : EnvState α, Mono s1 → s1.pendLat = [] → s1.pendNon = [] → s1.done = true →
+          Mono (resetTail cfg s1) ∧ ((resetTail cfg s1).done = false → PendOK cfg (resetTail cfg s1)) := by
+        intro s1 hm hl hn hd
+        obtain ⟨c1, c2⟩ := resetTail_mono_empty cfg s1 hm hl hn hd
+        exact ⟨c1, fun hdf => by rw [c2] at hdf; cases hdf⟩
+      refine key _ ?_ rfl rfl rfl
+      exact ⟨List.Pairwise.nil, (fun e he => by cases he), (fun lt hlt => by cases hlt)⟩
+  | some cur0 =>
+      simp only
+      obtain ⟨fs, fb⟩ := firstBatch_sorted cfg.tx cur0
+      refine resetTail_mono cfg _ ?_ ?_
+      · exact ⟨List.Pairwise.nil, (fun e he => by cases he), (fun lt hlt => by cases hlt)⟩
+      · exact ⟨fs, fun e _ => trivial, (mkGrid_strict cfg.tx.timesteps).sublist hsub,
+          fun g hg => hsub.subset hg, le_refl _, ⟨cur0, h0, trivial, fb⟩⟩
+
+/-- **Observers see timestamps in non-decreasing order over a whole episode**: after `reset` and any sequence
+    of `step` calls — successful, refused or failing — the stamps of the observer log (market events in
+    delivery order *and* the environment's own reset, step, done and new-date notifications) never decrease,
+    and nothing in the log is stamped later than the clock. -/
+theorem episode_stamps_sorted (pw : α → α → α) (lg : α → α) (cfg : EnvCfg α) (lo hi : Time) (start : Nat)
+    (clk : Option Time) (acts : List (Action α)) :
+    StampsSorted (acts.foldl (fun s a => (envStep pw lg cfg s a).1) (envReset cfg lo hi start clk)).log ∧
+    ∀ e ∈ (acts.foldl (fun s a => (envStep pw lg cfg s a).1) (envReset cfg lo hi start clk)).log,
+      stampLE e.stamp (acts.foldl (fun s a => (envStep pw lg cfg s a).1) (envReset cfg lo hi start clk)).now := by
+  have gen : ∀ (acts : List (Action α)) (s : EnvState α), Mono s → (s.done = false → PendOK cfg s) →
+      Mono (acts.foldl (fun s a => (envStep pw lg cfg s a).1) s) := by
+    intro acts
+    induction acts with
+    | nil => intro s h _; exact h
+    | cons a rest ih =>
+        intro s h hp
+        simp only [List.foldl_cons]
+        obtain ⟨h1, hp1⟩ := envStep_mono pw lg cfg s a h hp
+        exact ih _ h1 hp1
+  obtain ⟨r1, r2⟩ := reset_mono cfg lo hi start clk
+  have := gen acts _ r1 r2
+  exact ⟨this.sorted, this.bound⟩
+
+end
 end TV
